@@ -92,12 +92,14 @@ def tensor(env, topo, grid, radius):
                 else:
                     iso_ok = iso_ok & env.eq(Si[0][0], -p, tol=1e-9) & env.eq(Si[1][1], -p, tol=1e-9)
                 iso_ok = iso_ok & env.eq(Si[0][1], 0) & env.eq(Si[1][0], 0)
-    obs.append(Ob("one-tensor-per-grid-cell", keys_ok, finding="grid_key_collision"))
+    coll = "grid_key_collision" if grid >= 12 else None       # keys only collide from 12 x 12 on
+    obs.append(Ob("one-tensor-per-grid-cell", keys_ok, finding=coll))
     obs.append(Ob("tensor-symmetric", sym_ok))
     obs.append(Ob("zero-where-no-cell-centre-lies-within-the-radius", zero_ok))
     obs.append(Ob("jointly-linear-in-pressures-and-tensions", lin_ok))
     obs.append(Ob("pure-uniform-pressure-gives-minus-p-times-identity", iso_ok))
     # principal stresses: eig of the tensor of grid cell (r, c) stored under the centre of that grid cell
+    fr.calculate_stress_tensor(grid + 1, radius)      # an earlier analysis with another grid must leave no trace
     fr.calculate_stress_tensor(grid, radius)
     ps = fr.principal_stress
     sig2 = fr.stress_tensor[0]
@@ -114,17 +116,22 @@ def tensor(env, topo, grid, radius):
                 continue
             want = sig2[f"{row}{col}"] if grid <= 10 else None
             ref = runs["a"][2].get(f"{row}{col}")
-            if env.mode == "sym":
-                Sarg = tok.S if hasattr(tok, "S") else None
+            if env.mode == "sym" and hasattr(tok, "S"):
+                Sarg = tok.S
                 if Sarg is None or ref is None:
                     pr_ok = pr_ok & False
                 else:
                     pr_ok = pr_ok & env.conj([env.eq(Sarg[i][j], ref[i][j]) for i in range(2) for j in range(2)])
             else:
-                vals = np.sort(np.asarray(tok[0], dtype=float))
-                refv = np.sort(np.linalg.eigvalsh(np.asarray(ref, dtype=float)))
-                pr_ok = pr_ok & bool(np.allclose(vals, refv, atol=1e-9))
-    obs.append(Ob("principal-stresses-are-the-eigen-systems-of-the-tensors-at-their-grid-centres", pr_ok, finding="grid_key_collision"))
+                # concrete tensor (no symbol reached this grid cell, or concrete replay): real eigen-system
+                from symx.core import has_sym
+                if ref is None or has_sym(ref):
+                    pr_ok = pr_ok & False
+                else:
+                    vals = np.sort(np.asarray(tok[0], dtype=float))
+                    refv = np.sort(np.linalg.eigvalsh(np.asarray(ref, dtype=float)))
+                    pr_ok = pr_ok & bool(np.allclose(vals, refv, atol=1e-9))
+    obs.append(Ob("principal-stresses-are-the-eigen-systems-of-the-tensors-at-their-grid-centres", pr_ok, finding=coll))
     return obs
 
 
